@@ -8,6 +8,7 @@ import (
 	"os"
 	"path/filepath"
 	"runtime"
+	"strings"
 	"sync"
 	"sync/atomic"
 	"testing"
@@ -26,13 +27,16 @@ func TestMain(m *testing.M) {
 		os.Exit(m.Run())
 	}
 	run = vk.Start("C08", "fault_enumeration")
-	run.Rule("scripts of <=6 steps over <=3 sessions {start, stop, duplicate start, stop of an unknown id, 1 s wait, 10 s interim tick} in 1-2 process incarnations ended by graceful Stop() or a scripted crash, plus a final quiesce incarnation; per-transmission outage script (closed port => ECONNREFUSED) with at most MaxRetries-2 refusals in total; a fixed set of hand-written scripts plus seeded random ones. Every script is run un-killed once (reference), then once per (verifPoint, occurrence) the reference run passed in any incarnation, the child killing itself with SIGKILL there, followed by a restart on the same directory that runs 90 s of virtual time with the server up. The oracle reads only the stream of Accounting-Requests the harness's UDP server answered, the API return values journalled by the child, and the directory. non-trivial = distinct (script, incarnation, point, occurrence) kill case in which the kill was reached after StartSession had been called for at least one session (or leftovers of an earlier incarnation were on disk) and the recovery incarnation ran to its end; reference runs with at least one refused transmission or a restart count as well; a counter-split case (TestCounterSplit: the 49 pairs of {0,1,2^32-1,2^32,2^32+1,2^40+7,2^64-1} plus seeded random pairs, sent as Stop and Interim through Client.SendAccounting and as Stop through StartSession/StopSession) is non-trivial when a supplied value is >= 2^32")
+	run.Rule(rulePhased + " || " + ruleDHCP + " || scripts of <=6 steps over <=3 sessions {start, stop, duplicate start, stop of an unknown id, 1 s wait, 10 s interim tick} in 1-2 process incarnations ended by graceful Stop() or a scripted crash, plus a final quiesce incarnation; per-transmission outage script (closed port => ECONNREFUSED) with at most MaxRetries-2 refusals in total; a fixed set of hand-written scripts plus seeded random ones. Every script is run un-killed once (reference), then once per (verifPoint, occurrence) the reference run passed in any incarnation, the child killing itself with SIGKILL there, followed by a restart on the same directory that runs 90 s of virtual time with the server up. The oracle reads only the stream of Accounting-Requests the harness's UDP server answered, the API return values journalled by the child, and the directory. non-trivial = distinct (script, incarnation, point, occurrence) kill case in which the kill was reached after StartSession had been called for at least one session (or leftovers of an earlier incarnation were on disk) and the recovery incarnation ran to its end; reference runs with at least one refused transmission or a restart count as well; a counter-split case (TestCounterSplit: the 49 pairs of {0,1,2^32-1,2^32,2^32+1,2^40+7,2^64-1} plus seeded random pairs, sent as Stop and Interim through Client.SendAccounting and as Stop through StartSession/StopSession) is non-trivial when a supplied value is >= 2^32")
 	run.Assume("a transmission counts as accepted when the harness's server has sent the Accounting-Response (retransmissions with the same source, identifier and authenticator collapsed)")
 	run.Assume("crashes happen only at the 23 verifPoint markers of accounting.go (between persistence/transmit steps), not inside a file write; SIGKILL keeps completed writes (page cache), so fsync behaviour and torn files are out of reach")
 	run.Assume("'eventually' is bounded: after the last restart the server is up and 90 s of virtual time pass (all back-offs: base 1 s, max 4 s, MaxRetries 8)")
 	run.Assume("transmissions are serialised by the hook (a mutex from X:before-send to X:after-send) so that the per-transmission outage script is exact; the manager's goroutines otherwise run as they are")
 	run.Floor("kill_cases_judged", 100)
 	run.Floor("accepted_stop", 100)
+	run.Floor(floorQueuedLater, 20)
+	run.Floor(floorRenewLapsed, 100)
+	run.Floor(floorDiscoverLapsed, 100)
 	code := m.Run()
 	ec := run.Finish()
 	if code != 0 && ec == 0 {
@@ -40,6 +44,11 @@ func TestMain(m *testing.M) {
 	}
 	os.Exit(ec)
 }
+
+const (
+	ruleDHCP   = "DHCP server's own accounting path (TestDHCPAccounting, in-process, synctest bubble, 10 min leases, RADIUS server reachable throughout): every history of up to 4 (thorough 6) steps over {DISCOVER, REQUEST with requested-ip, renewing REQUEST with ciaddr, lease time passes, one cleanup tick, RELEASE, DECLINE} from an empty server and the same after DISCOVER REQUEST, one client, each ended by the shutdown accounting (stopAllAccounting; terminal because the server is gone afterwards), plus seeded random histories of 5-14 steps over two clients with half-lease waits; oracle on the acknowledged stream only: every Acct-Session-Id whose Start was acknowledged has exactly one acknowledged Stop at the end, no Stop for an id never started, no Stop before its Start, Stop carries the Start's identifiers; a history is non-trivial when at least one Accounting-Start was acknowledged; the lease state named in the counters (none/live/lapsed-unswept) is the harness's reading of the lease table before the step, used for counting and witness classes only"
+	rulePhased = "phase-scripted outage patterns (un-killed, one session): the server is unreachable independently per phase {A: the transmission of StartSession, B: queue transmissions before a Start got through, D: interim updates and their retries before the Stop is asked for, C: transmissions after the Stop was asked for}, the first n transmissions of each phase refused, n = 0..3 (thorough 0..4) for every phase exhaustively x StopSession at 0.7 s / 3.5 s / 6.3 s / 11.1 s / 21.5 s of virtual time (before the Start is delivered, between delivery and the first interim update, after one or two interim ticks), MaxRetries = max(5, C+D+1) (thorough 6) so that no record is refused MaxRetries times; plus seeded random patterns with MaxRetries 4..8, phases up to MaxRetries-2, other StopSession positions and the Stop issued by the shutdown drain with refusals continuing after the restart. The phase of a transmission and the shape counted (e.g. 'stop requested while start queued, >=1 refusal afterwards') are read from the harness's own journal of refused/answered transmissions, never from the manager's retry counters. The oracle is the same as for all other scripts"
+)
 
 // ---------------------------------------------------------------------------------------------
 // script generation
@@ -222,7 +231,9 @@ func randomScript(rng *rand.Rand) *Script {
 
 func finishScript(sc *Script, id string, rng *rand.Rand) {
 	sc.ID = id
-	sc.MaxRetries = maxRetries
+	if sc.MaxRetries == 0 {
+		sc.MaxRetries = maxRetries
+	}
 	sc.Sessions = genSessions(id, rng)
 	sc.Incs = append(sc.Incs, quiesceInc(sc.FinalDown))
 }
@@ -264,10 +275,21 @@ func TestCrashEnumeration(t *testing.T) {
 		finishScript(sc, fmt.Sprintf("r%03d", i), rng)
 		scripts = append(scripts, sc)
 	}
+	// phase-scripted outage patterns: exhaustive over short phases, then seeded random ones
+	for i, sc := range phasedExhaustive(run.Pick(3, 4)) {
+		finishScript(sc, fmt.Sprintf("p%03d", i), run.SubRand("phased", i))
+		scripts = append(scripts, sc)
+	}
+	for i, n := 0, run.Pick(24, 300); i < n; i++ {
+		rng := run.SubRand("phased-random", i)
+		sc := phasedRandom(rng)
+		finishScript(sc, fmt.Sprintf("q%03d", i), rng)
+		scripts = append(scripts, sc)
+	}
 	if only := os.Getenv("C08_ONLY"); only != "" { // debugging aid: run a single script
 		var keep []*Script
 		for _, sc := range scripts {
-			if sc.ID == only {
+			if strings.HasPrefix(sc.ID, only) { // "p012" one script, "p" all phase patterns
 				keep = append(keep, sc)
 			}
 		}
@@ -311,6 +333,11 @@ func TestCrashEnumeration(t *testing.T) {
 		runaway := false
 		for _, in := range ref.incs {
 			runaway = runaway || in.Runaway
+		}
+		if ref.sc.Phased {
+			// the phase patterns are about outages, not crashes: judged on the un-killed run only
+			run.Count("scripts_reference_only_phase_patterns", 1)
+			continue
 		}
 		if runaway {
 			// the reference run was cut short after maxTransmissionsPerIncarnation transmissions and has
